@@ -17,6 +17,9 @@ import (
 	"bytes"
 	"encoding/json"
 	"fmt"
+	"go/ast"
+	"go/parser"
+	"go/token"
 	"os"
 	"os/exec"
 	"path/filepath"
@@ -108,6 +111,7 @@ func main() {
 		}
 		os.Exit(selftest(p))
 	case "spec":
+		gen.DictYears = dictYears(repo)
 		p := props[os.Args[2]]
 		seed, _ := strconv.ParseUint(os.Args[3], 10, 64)
 		run, _ := strconv.Atoi(os.Args[4])
@@ -181,6 +185,7 @@ func build(withGate bool) {
 	if out, err := run(root, "go", "build", "-modfile="+pmodfile, "-o", plain, "./cmd/plainworker"); err != nil {
 		die2("build plainworker on %s failed (no verdict):\n%s", repo, out)
 	}
+	gen.DictYears = dictYears(repo)
 	if withGate {
 		// gate (i): the repository's own suite on the instrumented copy, simrt in pass-through
 		out, err := run(lib, "go", "test", "-vet=off", "-count=1", "-timeout", "20m", "./...")
@@ -653,4 +658,58 @@ func treeInfo() map[string]string {
 		m["dirty"] = strings.TrimSpace(out)
 	}
 	return m
+}
+
+// dictYears collects the integer literals between 1 and 9999 that occur in integer tables (composite literals
+// with at least 8 integer elements) of the library's non-test sources: the years the code itself singles out.
+func dictYears(root string) []int {
+	seen := map[int]bool{}
+	fset := token.NewFileSet()
+	filepath.Walk(root, func(p string, fi os.FileInfo, err error) error {
+		if err != nil {
+			return nil
+		}
+		if fi.IsDir() {
+			if b := fi.Name(); p != root && (strings.HasPrefix(b, ".") || b == "test" || b == "demo" || b == "seeddemo") {
+				return filepath.SkipDir
+			}
+			return nil
+		}
+		if !strings.HasSuffix(p, ".go") || strings.HasSuffix(p, "_test.go") {
+			return nil
+		}
+		f, err := parser.ParseFile(fset, p, nil, parser.SkipObjectResolution)
+		if err != nil {
+			return nil
+		}
+		ast.Inspect(f, func(n ast.Node) bool {
+			cl, ok := n.(*ast.CompositeLit)
+			if !ok || len(cl.Elts) < 8 {
+				return true
+			}
+			var vals []int
+			for _, e := range cl.Elts {
+				if bl, ok := e.(*ast.BasicLit); ok && bl.Kind == token.INT {
+					if v, err := strconv.Atoi(bl.Value); err == nil {
+						vals = append(vals, v)
+					}
+				}
+			}
+			if len(vals) >= 8 {
+				for _, v := range vals {
+					if v >= 1 && v <= 9999 {
+						seen[v] = true
+					}
+				}
+			}
+			return true
+		})
+		return nil
+	})
+	var out []int
+	for v := range seen {
+		out = append(out, v)
+	}
+	sort.Ints(out)
+	return out
 }
